@@ -397,6 +397,7 @@ impl<'a> Interp<'a> {
             (Some((d, _)), false) => Err(Fail::new("openfile-fails-where-rust-reads", format!("SFileOpenFileEx({:?}) fails (error {}), the Rust API finds and reads {} bytes", ns, self.storm.last_error(), d.len()))),
             (None, true) => {
                 self.note_handle(out as usize);
+                unsafe { (self.storm.SFileCloseFile)(out) };
                 Err(Fail::new(format!("openfile-succeeds-where-rust-fails{}", if ns.is_none() { ":invalid-name" } else { "" }), format!("SFileOpenFileEx({ns:?}) succeeds, the Rust API does not find/read that file")))
             }
         }
